@@ -673,6 +673,10 @@ def emit_fn(data, it, ckey, C, tlog, anchors_used, canary=False):
             if not mm:
                 raise Undecided("bad capture `%s` in chain %d of %s" % (c_, K, ckey))
             cap_names.append(mm.group(1))
+        # a captured local that the block mutates (`mut x: T` in the env table) is a plain parameter rebound mutably at entry
+        # (Verus: `mut` parameters cannot be mentioned in specs)
+        rebind = "".join(" let mut %s = %s;" % (n_, n_) for c_, n_ in zip(caps, cap_names) if re.match(r"^mut\s", c_))
+        caps = [re.sub(r"^mut\s+", "", c_) for c_ in caps]
         params = ", ".join(caps + (["Tracked(vx_log): Tracked<&mut VxLog>"] if has_log else []))
         args = ", ".join(cap_names + (["Tracked(vx_log)"] if has_log else []))
         def cond_lines(txt):
@@ -697,7 +701,7 @@ def emit_fn(data, it, ckey, C, tlog, anchors_used, canary=False):
         if lentry:
             anchors_used.add("chain %d entry" % K)
         lifted.append(("// T20: body of the `async move` block of actor future chain %d of %s, lambda-lifted (captures become parameters)\n"
-                       "async fn %s(%s) -> (r: %s)\n%s{\n%s" % (K, f["name"], lname, params, cfg["returns"], lspec, lentry)).encode() + btxt + b"\n    }\n")   # (indented: a `}` in column 0 ends the impl for the diagnostics' line map)
+                       "async fn %s(%s) -> (r: %s)\n%s{%s\n%s" % (K, f["name"], lname, params, cfg["returns"], lspec, rebind, lentry)).encode() + btxt + b"\n    }\n")   # (indented: a `}` in column 0 ends the impl for the diagnostics' line map)
         # the chain expression in the handler
         call = "%s%s(%s).await" % ("Self::" if it["kind"] == "impl_fn" else "", lname, args)
         if ch["maps"]:
